@@ -204,7 +204,35 @@ pub fn build_geom(raw: &RawGeom, g: usize, pool: &[C], other_cells: Option<&[boo
         cells = effective_cells(raw, g);
     }
     let merge_sel = if (f >> 4) & 1 == 0 { 0 } else { (f as u64) | 1 };
-    let polys = || trace(&cells, g, merge_sel);
+    // polyomino outlines carry a vertex at every lattice point they pass; half of the time the collinear ones are dropped,
+    // so that edges are long and another ring (or the partner) can touch or cross them strictly inside an edge
+    let polys = || -> Vec<Poly> {
+        let v = trace(&cells, g, merge_sel);
+        if (f >> 18) & 1 == 1 {
+            return v;
+        }
+        let slim = |r: &Vec<C>| -> Vec<C> {
+            if r.len() < 4 {
+                return r.clone();
+            }
+            let open = &r[..r.len() - 1];
+            let n = open.len();
+            let mut out: Vec<C> = (0..n)
+                .filter(|i| {
+                    let (a, b, c) = (open[(i + n - 1) % n], open[*i], open[(i + 1) % n]);
+                    (b.0 - a.0) * (c.1 - b.1) - (b.1 - a.1) * (c.0 - b.0) != 0
+                })
+                .map(|i| open[i])
+                .collect();
+            if out.len() < 3 {
+                return r.clone();
+            }
+            let f0 = out[0];
+            out.push(f0);
+            out
+        };
+        v.iter().map(|p| Poly { ext: slim(&p.ext), holes: p.holes.iter().map(&slim).collect() }).collect()
+    };
     let sub = (f >> 8) as usize;
     match raw.kind {
         0 => Some(G::Point(pts[0])),
@@ -213,6 +241,16 @@ pub fn build_geom(raw: &RawGeom, g: usize, pool: &[C], other_cells: Option<&[boo
             let d = distinct_prefix(&pts, 2);
             if d.len() < 2 {
                 return None;
+            }
+            // a quarter of the biased lines run THROUGH a feature of the other operand (a vertex, an edge mid point, a touch
+            // point) instead of ending at it: a proper crossing exactly at that feature
+            if bias && !pool.is_empty() && (f >> 5) & 3 == 0 {
+                let c0 = pool[(raw.pts[0].3 as usize * pool.len()) >> 8];
+                let dv = (d[1].0 - d[0].0, d[1].1 - d[0].1);
+                let gcd = { let (mut a, mut b) = (dv.0.abs(), dv.1.abs()); while b != 0 { let t = a % b; a = b; b = t; } a.max(1) };
+                let (ux, uy) = (dv.0 / gcd, dv.1 / gcd);
+                let k = 1 + (sub % 3) as i64;
+                return Some(G::Line((c0.0 - k * ux, c0.1 - k * uy), (c0.0 + k * ux, c0.1 + k * uy)));
             }
             Some(G::Line(d[0], d[1]))
         }
@@ -271,6 +309,33 @@ pub fn build_geom(raw: &RawGeom, g: usize, pool: &[C], other_cells: Option<&[boo
             }
             Some(G::Polygon(ps[sub % ps.len()].clone()))
         }
+        6 if (f >> 19) & 3 == 0 => {
+            // members touching strictly inside an edge: a convex member (hull of four raw points) and one or two triangles, each
+            // with an apex at the (lattice) midpoint of one of its edges and the other corners drawn freely; whether they are
+            // valid together (interiors disjoint, finitely many touch points) is decided by the domain filter
+            let base: Vec<C> = raw.pts.iter().take(4).map(|p| (2 * lattice_coord(p.1, g), 2 * lattice_coord(p.2, g))).collect();
+            let h = crate::refgeom::measure::hull(&base);
+            if h.len() < 3 || raw.pts.len() < 2 {
+                return None;
+            }
+            let n = h.len();
+            let mut members = vec![{ let mut e = h.clone(); e.push(e[0]); Poly::new(e, vec![]) }];
+            for t in 0..(1 + (f >> 21) as usize % 2) {
+                let k = (sub >> (3 * t)) % n;
+                let (a, b) = (h[k], h[(k + 1) % n]);
+                let apex = ((a.0 + b.0) / 2, (a.1 + b.1) / 2);
+                let q = |i: usize| { let p = raw.pts[(i + 2 * t) % raw.pts.len()]; (2 * lattice_coord(p.2, g) + 1 - 2 * (t as i64 % 2), 2 * lattice_coord(p.1, g)) };
+                let (c1, c2) = (q(0), q(1));
+                if (c1.0 - apex.0) * (c2.1 - apex.1) - (c1.1 - apex.1) * (c2.0 - apex.0) == 0 {
+                    continue;
+                }
+                members.push(Poly::new(vec![apex, c1, c2, apex], vec![]));
+            }
+            if members.len() < 2 {
+                return None;
+            }
+            Some(G::MultiPolygon(members))
+        }
         6 => {
             let ps = polys();
             if ps.is_empty() {
@@ -288,6 +353,13 @@ pub fn build_geom(raw: &RawGeom, g: usize, pool: &[C], other_cells: Option<&[boo
             let d = distinct_prefix(&pts, 8);
             let a = d[0];
             let b = d.iter().find(|b| b.0 != a.0 && b.1 != a.1)?;
+            // a quarter of the biased rectangles have a side running through a feature of the other operand
+            if bias && !pool.is_empty() && (f >> 5) & 3 == 0 {
+                let c0 = pool[(raw.pts[0].3 as usize * pool.len()) >> 8];
+                let (w, h) = ((b.0 - a.0).abs().max(1), (b.1 - a.1).abs().max(1));
+                let k = 1 + (sub % 2) as i64;
+                return Some(if sub & 4 == 0 { G::Rect((c0.0, c0.1 - k), (c0.0 + w, c0.1 + h)) } else { G::Rect((c0.0 - k, c0.1), (c0.0 + w, c0.1 + h)) });
+            }
             Some(G::Rect(a, *b))
         }
         8 => {
@@ -348,7 +420,26 @@ pub fn build_geom(raw: &RawGeom, g: usize, pool: &[C], other_cells: Option<&[boo
             // pool (vertices, lattice points on its edges) or its interior: holes touching the shell at a
             // vertex or in the middle of an edge, non-rectilinear. Validity is decided by the domain filter.
             let shell_pts: Vec<C> = raw.pts.iter().take(5).map(|p| (lattice_coord(p.1, g), lattice_coord(p.2, g))).collect();
-            let h = crate::refgeom::measure::hull(&shell_pts);
+            // the shell: the hull of the points, or (half of the time) a star-shaped, generally non-convex ring through all of
+            // them (sorted by angle around their first point) - a reflex shell vertex next to a touching hole
+            let h = if (f >> 16) & 1 == 0 {
+                crate::refgeom::measure::hull(&shell_pts)
+            } else {
+                let d = distinct_prefix(&shell_pts, 5);
+                if d.len() < 4 {
+                    return None;
+                }
+                let c0 = d[0];
+                let mut rest: Vec<C> = d[1..].to_vec();
+                let half = |p: &C| -> i32 { let (dx, dy) = (p.0 - c0.0, p.1 - c0.1); if dy > 0 || (dy == 0 && dx > 0) { 0 } else { 1 } };
+                rest.sort_by(|p, q| half(p).cmp(&half(q)).then_with(|| {
+                    let cr = (p.0 - c0.0) * (q.1 - c0.1) - (p.1 - c0.1) * (q.0 - c0.0);
+                    0.cmp(&cr).then_with(|| ((p.0 - c0.0).pow(2) + (p.1 - c0.1).pow(2)).cmp(&((q.0 - c0.0).pow(2) + (q.1 - c0.1).pow(2))))
+                }));
+                // the centre itself as a (reflex or convex) vertex
+                rest.push(c0);
+                rest
+            };
             if h.len() < 3 {
                 return None;
             }
